@@ -62,7 +62,7 @@ def tableLt (n es a b : Nat) : Bool :=
   match n, es with
   | 2, 0 => tab posit_2_0_less_than_lookup (tabIndex 2 a b) ≠ 0
   | 3, 0 => tab posit_3_0_less_than_lookup (tabIndex 3 a b) ≠ 0
-  | 3, 1 => a % 8 < b % 8                                         -- `lhs._bits < rhs._bits` on uint8_t
+  | 3, 1 => toSigned 8 (u8 ((a % 8) <<< 5)) < toSigned 8 (u8 ((b % 8) <<< 5))   -- `int8_t(lhs._bits << 5) < int8_t(rhs._bits << 5)`
   | 4, 0 => if b % 16 = 8 then false                              -- rhs.isnar()
             else (tab posit_4_0_subtraction_lookup (tabIndex 4 a b)) &&& 8 ≠ 0   -- (lhs - rhs).isneg()
   | _, _ => Posit.lt n a b
@@ -80,30 +80,27 @@ def cmpMaskOf (lt : Nat → Nat → Bool) (n a b : Nat) : Nat :=
 /-- posit<2,0>::operator=(long long) -/
 def assignInt_2_0 (x : Int) : Nat := if x ≤ -1 then 3 else if x = 0 then 0 else 1
 
-/-- posit<2,0>::float_assign(T rhs): compares `rhs` with ±0.25 -/
+/-- posit<2,0>::float_assign(T rhs): `rhs < 0` ↦ −1, `rhs == 0` ↦ 0, `rhs > 0` ↦ 1 (a non-zero value never becomes 0) -/
 def assignFP_2_0 (eb fb bits : Nat) : Nat :=
   match FP.decode eb fb bits with
   | .nan => 2
   | .inf _ => 2
   | .fin neg m e =>
     let x : Rat := (if neg then -1 else 1) * dyadic m e
-    if x ≤ -(1/4) then 3 else if x < 1/4 then 0 else 1
+    if x < 0 then 3 else if x = 0 then 0 else 1
 
-/-- posit<2,0>::to_double(): the switch reads NaR as -INFINITY. Result: float64 bits (never NaN) -/
-def toDouble_2_0 (a : Nat) : Nat :=
+/-- posit<2,0>::to_double(): a four-way switch; NaR reads as NAN. Result: float64 bits, `none` = NaN -/
+def toDouble_2_0 (a : Nat) : Option Nat :=
   match a % 4 with
-  | 0 => 0 | 1 => 0x3ff0000000000000 | 2 => 0xfff0000000000000 | _ => 0xbff0000000000000
+  | 0 => some 0 | 1 => some 0x3ff0000000000000 | 2 => none | _ => some 0xbff0000000000000
 
 /-! ### posit<3,0> -/
 
-/-- posit<3,0>::operator=(int) -/
+/-- posit<3,0>::operator=(long long); operator=(int) widens its argument and calls it -/
 def assignInt_3_0 (x : Int) : Nat :=
   if x ≤ -2 then 5 else if x = -1 then 6 else if x = 0 then 0 else if x = 1 then 2 else 3
 
-/-- posit<3,0>::operator=(long long rhs) { return operator=((int)rhs); } -/
-def assignLongLong_3_0 (x : Int) : Nat := assignInt_3_0 (toSigned 32 (ofSigned 64 x))
-
-/-- posit<3,0>::to_float(): `posit_3_0_values_lookup[bits()]` (float32 bits; NaR reads as -INFINITY) -/
+/-- posit<3,0>::to_float(): `posit_3_0_values_lookup[bits()]` (float32 bits; the NaR entry is NAN) -/
 def toFloatBits_3_0 (a : Nat) : Nat := tab posit_3_0_values_lookup (a % 8)
 
 /-! ### posit<3,1> -/
@@ -154,18 +151,24 @@ def intAssignCore8 (v : Nat) : Nat :=
     if (((mask - 1) &&& fb2) ||| ((mask <<< 1) &&& fb2)) ≠ 0 then u8 (raw0 + 1) else raw0
   else raw0
 
-/-- posit<8,0>::integer_assign / posit<8,2>::integer_assign. `rhs` is the `long long` argument.
-    Note the guard `v > 48 || v == rhs`: every positive argument is sent to maxpos. -/
-def integerAssign8 (rhs : Int) : Nat :=
+/-- the text shared by posit<8,0>::integer_assign and posit<8,2>::integer_assign. `rhs` is the `long long` argument.
+    `oldGuard = true`: the guard is `v > 48 || v == rhs` (posit_8_2.hpp: every positive argument is sent to maxpos);
+    `oldGuard = false`: the guard is `v > 48 || (sign && v == rhs)` (posit_8_0.hpp: only LLONG_MIN, its own negation). -/
+def integerAssign8With (oldGuard : Bool) (rhs : Int) : Nat :=
   if rhs = 0 then 0 else
   let sign := decide (rhs < 0)
   -- long long v = sign ? -rhs : rhs   (LLONG_MIN stays LLONG_MIN)
   let v : Int := toSigned 64 (ofSigned 64 (if sign then -rhs else rhs))
   let raw : Nat :=
-    if v > 48 ∨ v = rhs then 0x7F
+    if v > 48 ∨ ((oldGuard ∨ sign) ∧ v = rhs) then 0x7F
     else if v < 2 then u8 (ofSigned 64 (v * 64))
     else intAssignCore8 v.toNat
   if sign then negW 8 raw else raw
+
+/-- posit<8,0>::integer_assign -/
+def integerAssign8 (rhs : Int) : Nat := integerAssign8With false rhs
+/-- posit<8,2>::integer_assign: still the es = 0 text with the guard that catches every positive argument -/
+def integerAssign8_2 (rhs : Int) : Nat := integerAssign8With true rhs
 
 /-- posit<8,2>::float_assign(float): truncates, no rounding. `bits` = binary32 pattern of rhs -/
 def floatAssign_8_2 (bits : Nat) : Nat :=
@@ -208,45 +211,45 @@ def integerAssign_16_2 (rhs : Int) : Nat :=
   let sign := decide (rhs < 0)
   let v : Nat := ofSigned 64 (if sign then -rhs else rhs)      -- uint64_t v
   let raw : Nat :=
-    if v > 0x0080000000000000 then 0x7FFF
-    else if v > 0x005FFFFFFFFFFFFF then 0x7FFE
+    if v > 0x0040000000000000 then 0x7FFF                       -- v > 2^54
+    else if v ≥ 0x0008000000000000 then 0x7FFE                  -- 2^51 ≤ v ≤ 2^54
+    else if v > 0x0002000000000000 then 0x7FFD                  -- 2^49 < v < 2^51
+    else if v ≥ 0x0001000000000000 then 0x7FFC                  -- 2^48 ≤ v ≤ 2^49
     else if v = 1 then 0x4000
     else
       let mask := 0x0040000000000000                            -- bit 54
-      let sh := 54 - v.log2                                     -- v < 2^55 here, v ≥ 2
+      let sh := 54 - v.log2                                     -- 2 ≤ v < 2^48 here
       let scale := 54 - sh
       let fb1 := u64 (v <<< sh)
-      let k := scale >>> 2
-      -- `(scale & 0x3) << (11 - k)`: for k = 12, 13 the count is negative (undefined behaviour); x86 `shl` masks the count
-      -- to 5 bits, the set bits land at positions ≥ 30 and the uint16_t conversion drops them
-      let exp := if k ≤ 11 then u16 ((scale &&& 3) <<< (11 - k)) else 0
+      let k := scale >>> 2                                      -- ≤ 11
+      let exp := u16 ((scale &&& 3) <<< (11 - k))
       let fb2 := fb1 ^^^ mask
       let raw0 := u16 ((0x7FFF ^^^ (0x3FFF >>> k)) ||| exp ||| (fb2 >>> (k + 43)))
-      let m2 := 0x1000 <<< k                                    -- "bitNPlusOne" mask as written (bit 12+k)
+      let m2 := 0x0000040000000000 <<< k                        -- bitNPlusOne: bit 42+k
       if m2 &&& fb2 ≠ 0 then
-        if (((m2 - 1) &&& fb2) ||| ((m2 <<< 1) &&& fb2)) ≠ 0 then u16 (raw0 + 1) else raw0
+        if (((m2 - 1) &&& fb2) ||| (raw0 &&& 1)) ≠ 0 then u16 (raw0 + 1) else raw0
       else raw0
   if sign then negW 16 raw else raw
 
 /-! ### posit<32,2> -/
 
-/-- posit<32,2>::integer_assign(long rhs): `uint32_t v = sign ? -rhs : rhs` keeps the low 32 bits only -/
+/-- posit<32,2>::integer_assign(long rhs): `uint64_t v = sign ? -uint64_t(rhs) : rhs`, 64-bit normalisation loop -/
 def integerAssign_32_2 (rhs : Int) : Nat :=
   if rhs = 0 then 0 else
   let sign := decide (rhs < 0)
-  let v : Nat := u32 (ofSigned 64 (if sign then -rhs else rhs))
+  let v : Nat := ofSigned 64 (if sign then -rhs else rhs)
   let raw : Nat :=
     if v = 0x80000000 then 0x7FB00000
     else if v < 2 then u32 (v <<< 30)
     else
-      let sh := 31 - v.log2
-      let m := 31 - sh
-      let fb1 := u32 (v <<< sh)
+      let sh := 63 - v.log2
+      let m := 63 - sh
+      let fb1 := u64 (v <<< sh)
       let k := m >>> 2
       let ebits := (m &&& 3) <<< (27 - k)
-      let fb2 := fb1 ^^^ 0x80000000
-      let raw0 := u32 ((0x7FFFFFFF ^^^ (0x3FFFFFFF >>> k)) ||| ebits ||| (fb2 >>> (k + 4)))
-      let mask := 0x8 <<< k
+      let fb2 := fb1 ^^^ 0x8000000000000000
+      let raw0 := u32 ((0x7FFFFFFF ^^^ (0x3FFFFFFF >>> k)) ||| ebits ||| (fb2 >>> (k + 36)))
+      let mask := 0x800000000 <<< k
       if mask &&& fb2 ≠ 0 then
         if (((mask - 1) &&& fb2) ||| ((mask <<< 1) &&& fb2)) ≠ 0 then u32 (raw0 + 1) else raw0
       else raw0
@@ -275,13 +278,14 @@ def roundMul32 (m : Int) (exp : Nat) (fraction : Nat) : Nat :=
   else
     let fr := (fraction &&& 0x0FFFFFFFFFFFFFFF) >>> scale
     let finalF0 := u32 (fr >>> 32)
-    let (bitN, exp', finalF) : Bool × Nat × Nat :=
-      if scale ≤ 28 then (decide (fr &&& 0x80000000 ≠ 0), u32 (exp <<< (28 - scale)), finalF0)
-      else if scale = 30 then (decide (exp &&& 2 ≠ 0), 0, 0)
-      else (decide (exp &&& 1 ≠ 0), exp >>> 1, 0)
+    -- `moreBits0`: the low exponent bit that does not fit when scale = 30 (`moreBits = exp & 0x1`)
+    let (bitN, moreBits0, exp', finalF) : Bool × Nat × Nat × Nat :=
+      if scale ≤ 28 then (decide (fr &&& 0x80000000 ≠ 0), 0, u32 (exp <<< (28 - scale)), finalF0)
+      else if scale = 30 then (decide (exp &&& 2 ≠ 0), exp &&& 1, 0, 0)
+      else (decide (exp &&& 1 ≠ 0), 0, exp >>> 1, 0)
     let bits := u32 (regime + exp' + finalF)
     if bitN then
-      let more := if fr &&& 0x7FFFFFFF ≠ 0 then 1 else 0
+      let more := if fr &&& 0x7FFFFFFF ≠ 0 then 1 else moreBits0
       u32 (bits + ((bits &&& 1) ||| more))
     else bits
 
